@@ -81,6 +81,41 @@ CHECKS = {
         note='Trusted base: the 3-line closed form in props/c13.py; stamps are in the default unit (README examples '
              '5/6).',
         ref='DESIGN.md §7 C13'),
+    'C09': dict(
+        technique='metamorphic monitor: modular spec (sub-specs, multi-assertion text, declared constants) vs the '
+                  'harness-inlined text on the same data through the same real monitor',
+        text='Exploration over random decompositions of generated formulas on 5 monitor configurations.',
+        note='Trusted base: decomposition/inlining in rtverif/lang.py (inlined form = the formula the decomposition '
+             'started from).',
+        ref='DESIGN.md §7 C09'),
+    'C11': dict(
+        technique='purity monitors: deep before/after comparison of caller arguments with tripwire list/dict '
+                  'subclasses locating the mutation; repeat-evaluation; solo-vs-interleaved run comparison over '
+                  'several objects (shared argument objects); result digests under PYTHONHASHSEED sweep in subprocesses',
+        text='Exploration over generated specs of the 4 monitor kinds, aliasing-prone shapes (bare variable under a '
+             'bound longer than the trace), random interleavings of 2..4 objects, 5 (quick) / 9 (thorough) hash seeds.',
+        note='Trusted base: list/dict subclasses behave like builtins; per-object call order is preserved by the '
+             'interleaver.',
+        ref='DESIGN.md §7 C11'),
+    'C12': dict(
+        technique='metamorphic monitor: get_value(name) after every evaluate()/update() vs a stand-alone real spec '
+                  'for the formula bound to that name; input variables vs the supplied data',
+        text='Exploration over generated modular specs with 1..4 names on 5 monitor configurations (incl. pastified).',
+        note='Trusted base: harness computation of the formula bound to each name; get_value of input variables is '
+             'only demanded for variables the specification uses.',
+        ref='DESIGN.md §7 C12'),
+    'C17': dict(
+        technique='exception-class monitor at the API boundary over a harness support matrix: supported + well-formed '
+                  '=> every call returns; unsupported => RTAMTException by the first evaluation',
+        text='Exploration over the whole operator alphabet x 6 monitor configurations x degenerate data shapes.',
+        note='Trusted base: the support matrix in props/c17.py (transcribed from the statement).',
+        ref='DESIGN.md §7 C17'),
+    'C19': dict(
+        technique='cross-domain metamorphic monitor: the same grid-aligned data through the real dense-time and the '
+                  'real discrete-time offline monitors, compared at the sampling instants',
+        text='Exploration over the stated fragment x periods {1, 1/2, 2, 1/4} x step signals.',
+        note='Trusted base: bound scaling (samples -> seconds) in props/c19.py; harness horizon.',
+        ref='DESIGN.md §7 C19'),
 }
 
 NOT_APPLICABLE = {}
